@@ -281,6 +281,7 @@ int sim_epoll_ctl(int epfd, int op, int fd, struct epoll_event *ev) {
 	if (!k || !k->open) { if (g_hooks) g_hooks->hygiene(k ? "use-after-close" : "foreign-descriptor", "epoll_ctl on a closed or unknown descriptor"); errno = EBADF; return -1; }
 	if (op == EPOLL_CTL_ADD) {
 		if (k->in_epoll) { errno = EEXIST; return -1; }
+		if (k->kind == FD_STREAM && k->epoll_add_errno) { int er = k->epoll_add_errno; k->epoll_add_errno = 0; if (g_hooks) g_hooks->on_file_op("epoll-add-fault", er); errno = er; return -1; }
 		if (!g_kernel.epoll_add_errs.empty() && k->kind == FD_TIMER) { /* only timer registrations are made to fail (DESIGN.md 4.4) */ int er = g_kernel.epoll_add_errs.front(); g_kernel.epoll_add_errs.pop_front(); if (er) { errno = er; return -1; } }
 		k->in_epoll = true; k->ep_events = ev->events; k->ep_data = ev->data.u64; k->ep_owner = epfd; k->ep_pending = false;
 		if (kernel_fd_ready_in(*k) || kernel_fd_ready_out(*k)) g_kernel.mark_pending(*k);
@@ -311,7 +312,7 @@ int sim_epoll_pwait(int epfd, struct epoll_event *events, int maxevents, int tim
 
 int sim_timerfd_create(int clockid, int flags) {
 	SYSCALL("timerfd_create"); (void)clockid; (void)flags;
-	if (!g_kernel.timerfd_create_errs.empty()) { int er = g_kernel.timerfd_create_errs.front(); g_kernel.timerfd_create_errs.pop_front(); if (er) { errno = er; return -1; } }
+	if (!g_kernel.timerfd_create_errs.empty()) { int er = g_kernel.timerfd_create_errs.front(); g_kernel.timerfd_create_errs.pop_front(); if (er) { if (g_hooks) g_hooks->on_timer_create_failed(); errno = er; return -1; } }
 	return g_kernel.alloc_fd(FD_TIMER).fd;
 }
 
